@@ -22,7 +22,10 @@ RULE = ("the real fallback plugin, built as the loader builds it (args map -> ut
         "threshold unset/0/negative/1/50/100/499/500/501/800/60000 ms (+ random values) x always_standby, observed = the duration "
         "the threshold timer is armed with and the standby flag in the constructed plugin; two coarse end-to-end timing cases "
         "(threshold 50 ms configured, secondary started/released within 400 ms, best of three); six two-call sequences that first "
-        "let a pooled threshold timer expire unreceived and then check a within-threshold call; observed in scheduled calls: which "
+        "let a pooled threshold timer expire unreceived and then check a within-threshold call; 32 sequences on ONE instance "
+        "(threshold 50 ms): 1 or 3 calls abandoned by their callers before the threshold with their workers kept parked, then "
+        "directly a call with a slow primary and a fast secondary / both failing / primary answering after the secondary started, "
+        "always_standby on/off (CSeq, judged by the single-call model: calls are independent); observed in scheduled calls: which "
         "worker's answer / ErrFailed / context error came back and which schedule points had been reached at that moment; "
         "a case is non-trivial when always_standby is on with both workers answering, the threshold is short, or the "
         "caller's context ends, or a positive threshold is configured; distinct = distinct Gallina literal (repeats with the same "
@@ -39,7 +42,9 @@ TRUSTED_BASE = [
     "hand-written model coq/Model/Fallback.v tied to plugin/executable/sequence/fallback/fallback.go doFallback by "
     "(a) Gen/FallbackFacts.v regenerated from the AST on every run: order of respChan<-r / close(primDone), order of "
     "close(primFailed) / respChan<-nil, capacity of respChan, collection rounds, cases of the secondary's two selects, the "
-    "argument of pool.GetTimer in the secondary goroutine (must be the configured field itself), the "
+    "argument of pool.GetTimer in the secondary goroutine (must be the configured field itself), timer ownership "
+    "(fallback_timer_owned_by_secondary: Get and deferred Release inside the secondary goroutine, no other pool use in doFallback; "
+    "Model.Fallback.timer_private / call_model and theorem c20_calls_independent depend on it), the "
     "statements of newFallbackPlugin that compute fastFallbackDuration from args.Threshold translated into the Gallina function "
     "fallback_effective_threshold (proved equal to Model.Fallback.effective_threshold), the source of alwaysStandby, and "
     "(b) differential execution under enforced schedules (Judge.C20.agree explores the same gated transition system the theorems are about)",
@@ -55,6 +60,8 @@ LEVEL_TEXT = ("Theorems in coq/Properties/C20.v, for all 3x3 worker outcomes, al
               "signal and discarded when the primary is in time; context error only/at once when the context ended; no deadlock, finite "
               "runs, workers finish, channel never blocks. The threshold the timer is armed with is the configured number of milliseconds "
               "whenever that is positive and the 500 ms default otherwise (function regenerated from newFallbackPlugin's statements). "
+              "A call of a sequence on one instance is described by the single-call model whatever earlier calls did "
+              "(c20_calls_independent, resting on the regenerated timer-ownership fact). "
               "The original statement order is refuted (F8, fixed).")
 LEVEL_NOTE = ("Trusted: Coq kernel + vm_compute; hand-written model tied to the code by Gen/FallbackFacts.v and the scheduled differential "
               "run; Go channel/select/timer semantics as modelled; executables return. The workers' deadline context (makeDdlCtx) also "
